@@ -6,6 +6,10 @@ ENTRIES = [
     dict(name="pixel_register omitted", rule="R1", file=C, old=GCALL, new=GCALL.replace(", pixel_register=True", "")),
     dict(name="adjust dropped", rule="R1", file=C, old=GCALL, new=GCALL.replace("adjust=adjust, ", "")),
     dict(name="shape passed as spacing", rule="R1", file=C, old=GCALL, new=GCALL.replace("spacing=spacing, shape=shape", "spacing=shape, shape=spacing")),
+    dict(name="single-block shortcut guarded by len() of the 2-D centre grid (rows, not blocks)", rule="R3", file=C, old="    tree = kdtree(block_coords)\n    labels = tree.query(np.transpose(n_1d_arrays(coordinates, 2)))[1]\n",
+         new="    if len(block_coords[0]) == 1:\n        labels = np.zeros(coordinates[0].size, dtype=int)\n    else:\n        tree = kdtree(block_coords)\n        labels = tree.query(np.transpose(n_1d_arrays(coordinates, 2)))[1]\n"),
+    dict(name="neutral: single-block shortcut guarded by the size of the centre grid", expect="DISCHARGED", file=C, old="    tree = kdtree(block_coords)\n    labels = tree.query(np.transpose(n_1d_arrays(coordinates, 2)))[1]\n",
+         new="    if block_coords[0].size == 1:\n        labels = np.zeros(coordinates[0].size, dtype=int)\n    else:\n        tree = kdtree(block_coords)\n        labels = tree.query(np.transpose(n_1d_arrays(coordinates, 2)))[1]\n"),
     dict(name="given region ignored", rule="R1", file=C, old="    coordinates = check_coordinates(coordinates)[:2]\n    if region is None:\n        region = get_region(coordinates)\n    block_coords",
          new="    coordinates = check_coordinates(coordinates)[:2]\n    region = get_region(coordinates)\n    block_coords"),
     dict(name="labels are distances ([0])", rule="R3", file=C, old="labels = tree.query(np.transpose(n_1d_arrays(coordinates, 2)))[1]", new="labels = tree.query(np.transpose(n_1d_arrays(coordinates, 2)))[0]"),
